@@ -1,3 +1,4 @@
+import Splipy.Lemmas.C10Cummax
 import Splipy.Lemmas.C05Knots
 import Splipy.Model.Valid
 import Splipy.Lemmas.Triangle
@@ -589,7 +590,7 @@ theorem mk?_ok_periodic (p k : ℕ) (l : List K) (tol : K) (h0 : 0 ≤ tol) (hp 
   have hk0 : (k : Int) ≥ 0 := by omega
   simp only [hk0, true_and]
   rw [h4]
-  simp only [Bool.false_eq_true, if_false, h3]
+  simp only [Bool.false_eq_true, if_false, h3, Basis.cummax_of_pairwise l hs]
 
 /-! ## Entries, ghost property, sortedness and acceptance of the standard periodic vector -/
 
